@@ -770,7 +770,31 @@ def _real_builtin(name: str) -> Callable:
             return next(it, *default)
 
         return nxt
-    return lambda *a, **k: list(real(*a, **k))
+    return lambda *a, **k: _bounded(real(*a, **k))
+
+
+_BOUND = 100000
+
+
+def _bounded(it) -> list:
+    import itertools
+
+    out = list(itertools.islice(it, _BOUND + 1))
+    if len(out) > _BOUND:
+        raise NotConst("unbounded iteration")
+    return out
+
+
+def _itertools(name: str) -> Optional[Callable]:
+    """Pure itertools functions; the infinite ones are cut at a bound so that an evaluation always ends."""
+    import itertools
+
+    if name in ("count", "cycle", "repeat"):
+        real = getattr(itertools, name)
+        return lambda *a, **k: (real(*a, **k) if name == "repeat" and (len(a) > 1 or "times" in k) else itertools.islice(real(*a, **k), _BOUND + 1))
+    if name in ("chain", "islice", "zip_longest", "accumulate", "takewhile", "dropwhile", "starmap", "pairwise", "permutations"):
+        return getattr(itertools, name)
+    return None
 
 
 
@@ -820,6 +844,10 @@ class XFolder(Folder):
                 return _MODULE_FUNCS[(f.value.id, f.attr)](*self._elts(n.args))
             if f.value.id == "dict" and f.attr == "fromkeys" and not n.keywords:
                 return dict.fromkeys(*self._elts(n.args))
+            imp = self.repo.module(self.module).imports.get(f.value.id)
+            if imp is not None and imp == ("itertools", None) and _itertools(f.attr) is not None:
+                kw0 = {k.arg: self.fold(k.value) for k in n.keywords if k.arg is not None}
+                return _itertools(f.attr)(*self._elts(n.args), **kw0)
         # callee first (as the language does), then arguments
         fn = recv = None
         if isinstance(f, ast.Name):
@@ -1101,6 +1129,26 @@ class FuncEval(BlockEval):
             finally:
                 for m in reversed(mgrs):
                     m._exit()
+        elif isinstance(st, ast.For):
+            it = self.fold(st.iter)
+            try:
+                it = iter(it)
+            except TypeError:
+                raise TypeError(f"'{type(it).__name__}' object is not iterable")
+            broke = False
+            for item in it:
+                self._assign(st.target, item)
+                try:
+                    self._block(st.body)
+                except _Stop as s:
+                    if s.kind == "continue":
+                        continue
+                    if s.kind == "break":
+                        broke = True
+                        break
+                    raise
+            if not broke:
+                self._block(st.orelse)
         elif isinstance(st, ast.While):
             n = 0
             while self.fold(st.test):
